@@ -70,9 +70,11 @@ class FileReader(AbstractReader):
         mibIndex = {}
         if os.path.exists(indexFile):
             try:
-                f = open(indexFile)
+                f = open(indexFile, 'rb')
+                # same decoding as for MIB files; editors may leave a BOM
+                lines = decode(f.read()).lstrip(u'\ufeff').splitlines()
                 mibIndex = dict(
-                    [x.split()[:2] for x in f.readlines()
+                    [x.split()[:2] for x in lines
                      if len(x.split()) > 1]
                 )
                 f.close()
